@@ -8,6 +8,7 @@
                           commit ok|ro|err, cleanup ok|err, any op "hung" (given up)
      Pre(w) / Post(w, done)  the layout's writable list before / after the round;
                           done = Topology.Vacuum has returned
+     NextRound            Topology.Vacuum is called again on the same topology
 
    The statement forbids exactly three things:
    (1) a commit arriving at a replica that does not hold a COMPLETED compaction of its
@@ -127,6 +128,14 @@ Post(w, done, D) == /\ phase = "run"
                     /\ phase' = "over"
                     /\ UNCHANGED <<shadow, live, open, wBefore, bigVols, roSeen, shrunk, cFailed, compactedV, commitV, cleanedV>>
 
+(* the master starts another round on the same topology: the baseline of (3) stays the state
+   before the FIRST round (nothing else changes in between); what replicas answered so far
+   (read-only, a successful or failed commit) stays true *)
+NextRound == /\ phase = "over"
+             /\ phase' = "run"
+             /\ compactedV' = Const(Vols, FALSE) /\ commitV' = Const(Vols, FALSE) /\ cleanedV' = Const(Vols, FALSE)
+             /\ UNCHANGED <<shadow, live, open, wBefore, bigVols, roSeen, shrunk, cFailed>>
+
 (* ---------- model-checking view: any environment that respects rule (1) ---------- *)
 ANext == \/ \E w \in SUBSET Vols, b \in SUBSET Vols : Pre(w, b)
          \/ /\ phase = "run"
@@ -135,6 +144,7 @@ ANext == \/ \E w \in SUBSET Vols, b \in SUBSET Vols : Pre(w, b)
                     /\ Call(v, r, op)
                \/ \E c \in open : \E out \in Outs(c[3]) : Ret(c[1], c[2], c[3], out)
          \/ \E w \in SUBSET Vols, done \in BOOLEAN : Post(w, done, {})
+         \/ NextRound
 ASpec == AInit /\ [][ANext]_avars
 
 ATypeOK == /\ \A v \in Vols, r \in Reps : shadow[v][r] \in {"none", "partial", "good"} /\ live[v][r] \in {"C", "damaged"}
